@@ -18,7 +18,7 @@ ASSUMPTIONS = ['agreement is not correctness: a common-mode error is invisible h
 BUDGET = {'quick': 170, 'thorough': 1500}
 CHUNK = {'quick': 6, 'thorough': 20}
 CASE_TIMEOUT = 300
-REQUIRED = ['familyA_compared', 'familyB_compared', 'familyB_discrete_compared', 'familyC_SIR_compared', 'familyC_SIS_compared', 'familyD_SIR_compared',
+REQUIRED = ['multigraph_inputs', 'familyA_compared', 'familyB_compared', 'familyB_discrete_compared', 'familyC_SIR_compared', 'familyC_SIS_compared', 'familyD_SIR_compared',
             'familyD_SIS_compared', 'pairs_compared']
 
 
@@ -40,6 +40,12 @@ def gen_cases(tier, seed):
             g = nx.Graph(nx.configuration_model(degs, seed=r.randrange(10 ** 9)))
             g.remove_edges_from(nx.selfloop_edges(g))
             c['graph'] = {'n': nn, 'edges': sorted([sorted(e) for e in g.edges()]), 'labels': r.choice(gen.LABEL_SCHEMES)}
+            if k % 5 == 4:
+                # the raw output of nx.configuration_model (a MultiGraph with parallel edges and self-loops) is how the library's own
+                # documentation feeds degree-based models; degrees count edge ends there
+                mg = nx.configuration_model(degs, seed=r.randrange(10 ** 9))
+                c['graph'] = {'n': nn, 'edges': sorted([sorted(e) for e in mg.edges()]), 'labels': r.choice(gen.LABEL_SCHEMES), 'multi': True}
+                g = mg
             if max(dict(g.degree()).values()) > 6 or g.number_of_edges() < 3:
                 c['graph'] = {'n': 6, 'edges': [[0, 1], [1, 2], [2, 3], [3, 4], [4, 5], [5, 0], [0, 3]], 'labels': 'int'}
         else:
@@ -68,6 +74,8 @@ def run_case(case):
     res = new_result()
     G, lab = gen.build_graph(case['graph'])
     N = float(G.order())
+    if case['graph'].get('multi'):
+        bump(res, 'multigraph_inputs')
     tau, gamma, rho = case['tau'], case['gamma'], case['rho']
     fam = case['family']
     tk = dict(tmin=case['tmin'], tmax=case['tmin'] + case['tspan'], tcount=case['tcount'])
